@@ -250,7 +250,7 @@ func witnessBlock() *gen.Block {
 }
 
 func TestKnownRPCStorageProofOrder(t *testing.T) {
-	// two contracts with different storage; the same request 40 times: the order of contracts_storage_proofs
+	// two contracts with different storage; the same request 300 times (a 2-entry Go map is iterated in swapped order with probability 1/8): the order of contracts_storage_proofs
 	// follows Go map iteration
 	b := witnessBlock()
 	n := node.New(false, nil, &networks.Sepolia)
@@ -260,7 +260,7 @@ func TestKnownRPCStorageProofOrder(t *testing.T) {
 	}
 	ep := newEndpoints(n)[0]
 	req := proofRequest{blockID: "latest", storage: []storageReq{{Contract: gen.F(1), Keys: fl(10)}, {Contract: gen.F(2), Keys: fl(20)}}}
-	permuted, total := 0, 40
+	permuted, total := 0, 300
 	for i := 0; i < total; i++ {
 		resp, bad := ep.call("starknet_getStorageProof", req.params(false))
 		if bad != "" || resp.Error != nil {
